@@ -421,7 +421,24 @@ func runC11(tier string, seed uint64) int {
 	}
 	for ci, class := range c11FaultClasses {
 		for sh := 0; sh < nShapes; sh++ {
-			base := cloneScenario(scs[(ci+sh)%len(scs)])
+			src := scs[(ci+sh)%len(scs)]
+			if class == "tillage_between_sowing_and_harvest" {
+				// prefer a project with a crop that is sown and harvested inside the simulated period (both ends of the window)
+				for k := 0; k < len(scs); k++ {
+					c := scs[(ci+sh+k)%len(scs)]
+					ok := false
+					for i := 1; i < len(c.Rotation); i++ {
+						if c.Rotation[i].Harvest.Zeit() <= c.End.Zeit()-3 {
+							ok = true
+						}
+					}
+					if ok {
+						src = c
+						break
+					}
+				}
+			}
+			base := cloneScenario(src)
 			base.Project = fmt.Sprintf("f%02d_%d", ci, sh)
 			base.Weather.Folder = fmt.Sprintf("wf%02d_%d", ci, sh)
 			like := applyFault(base, class, r, sh)
